@@ -267,6 +267,9 @@ func runCheck(id, only string, noEv bool) int {
 			case hasArg(d, "blocking-send"):
 				ok, why = structuralBlockingSend(fn)
 				oname = "#structural.blocking-send"
+			case hasArg(d, "recovers"):
+				ok, why = structuralRecovers(fn)
+				oname = "#structural.recovers"
 			case hasArg(d, "no-go"):
 				ok, why = structuralNoGo(fn)
 				oname = "#structural.no-go"
